@@ -6,6 +6,6 @@ PROFILE = {'p_write': 0.3, 'p_plain': 0.5, 'handle_writes': True, 'writes': {'in
 
 
 def main(tier, seed):
-    return dbtie.db_check("C10", tier, seed, PROFILE, 300, 6000, "Prop_C10",
+    return dbtie.db_check("C10", tier, seed, PROFILE, 400, 6000, "Prop_C10",
                           "user callables and re are an environment the theorems quantify over; the tie instantiates them with the twin table")
 
